@@ -44,7 +44,9 @@ class AsJSONMixin:
                 and not is_readonly_property(self, name)
             )
 
-        return rowselect(vars(self), vars(self), where=is_public)
+        # NOTE: a snapshot; another thread may be adding (cached) attributes to self
+        attrs = dict(vars(self))
+        return rowselect(attrs, attrs, where=is_public)
 
 
 def asjson(obj: Any, seen: set[int] | None = None) -> Any:
